@@ -1063,6 +1063,7 @@ class HistogramBase(abc.ABC):
             if self.has_same_bins(other):
                 # print("Has same!!!!!!!!!!")
                 self._coerce_dtype(other.dtype)
+                self._widen_for_sum(other, with_missed=True)
                 self.frequencies = self.frequencies + other.frequencies
                 self.errors2 = self.errors2 + other.errors2
                 # Not in place: an unknown (NaN) missed weight does not fit an integer array
@@ -1086,6 +1087,7 @@ class HistogramBase(abc.ABC):
                     map1, map2 = new_bins.adapt(other._binnings[i])
                     self._change_binning(new_bins, map1, axis=i)
                     other._change_binning(new_bins, map2, axis=i)
+                self._widen_for_sum(other, with_missed=False)
                 self.frequencies = self.frequencies + other.frequencies
                 self.errors2 = self.errors2 + other.errors2
             else:
@@ -1104,6 +1106,23 @@ class HistogramBase(abc.ABC):
                 f"Only histograms can be added together. {type(other)} found instead."
             )
         return self
+
+    def _widen_for_sum(self, other: "HistogramBase", *, with_missed: bool) -> None:
+        """Sums a compact integer content type cannot hold widen it (before anything is added).
+
+        The dtype has been coerced to the common type of both operands already.
+        """
+        dtype = self._frequencies.dtype
+        if dtype.kind not in "iu" or dtype.itemsize >= 8 or other.dtype.kind not in "iu":
+            return
+        sums = [
+            self._frequencies.astype(np.int64) + other._frequencies,
+            self._errors2.astype(np.int64) + other._errors2,
+        ]
+        if with_missed:
+            sums.append(np.nan_to_num(self._missed.astype(float) + other._missed))
+        if max(float(np.abs(values).max(initial=0)) for values in sums) > np.iinfo(dtype).max:
+            self.set_dtype(np.int64)
 
     def __sub__(self, other):
         new = self.copy()
